@@ -100,7 +100,7 @@ def gen_disk_case(rng, nb=None, mode=None, cotan=None, small=False):
     case = {"verts": verts, "faces": fs, "mode": mode, "cotan": bool(cotan), "kind": kind, "disk": True,
             "call": gen_call_form(rng)}
     add_polygon(rng, case)
-    return case
+    return vary_geometry(rng, case)
 
 
 def add_polygon(rng, case):
@@ -121,7 +121,28 @@ def gen_call_form(rng):
         return None                      # the plain all-keyword call
     return {"mode": rng.choice(["pos", "kw", "omit"]), "cotan": rng.choice(["pos", "kw", "omit"]),
             "verbose": rng.choice(["pos", "kw", "omit"]), "corners": rng.choice(["kw", "omit"]),
-            "cb": rng.choice(["omit", "none", "none"]), "uv_attr": rng.choice(["omit", "none"])}
+            "cb": rng.choice(["omit", "none", "none"]), "uv_attr": rng.choice(["omit", "none"]),
+            # representations: flags as bool / int 0,1 / numpy.bool_; face indices as int / numpy ints; custom array dtype
+            "flags": rng.choice(["bool", "int", "np"]), "idx": rng.choice(["int", "np64", "np32"]),
+            "cb_dtype": rng.choice(["f64", "f32"]),
+            # run() / worker() / run() twice / run(), read flat_mesh, run() again
+            "invoke": rng.choice(["run", "call", "twice", "flat-rerun"])}
+
+
+def vary_geometry(rng, case):
+    """geometry the result must not depend on: a power-of-two scale (exact), and - uniform weights are purely
+    combinatorial - degenerate coordinates with valid connectivity (all vertices coincident / on a line / all zero)"""
+    r = rng.random()
+    V = case["verts"]
+    if r < 0.12:
+        k = rng.choice([-40, -23, 30, 66])
+        case["verts"] = [[x * 2.0 ** k for x in p] for p in V]
+        case["geometry"] = "scaled 2^%d" % k
+    elif r < 0.24 and not case["cotan"] and "seq" not in case:
+        kind = rng.choice(["all-zero", "coincident", "line"])
+        case["verts"] = [[0.0, 0.0, 0.0] if kind == "all-zero" else [3.0, -1.5, 0.25] if kind == "coincident" else [p[0], 0.0, 0.0] for p in V]
+        case["geometry"] = kind
+    return case
 
 
 def gen_sequence_case(rng, small=True):
@@ -142,7 +163,7 @@ def gen_sequence_case(rng, small=True):
         raise RuntimeError("generator could not produce a sequence disk")
     case = {"verts": verts, "faces": fs, "mode": "circle", "cotan": False, "kind": "seq-" + kind, "disk": True}
     add_polygon(rng, case)
-    pat = rng.choice(["cot-uni", "uni-cot-uni", "pre-cotangent", "pre-angles", "random"])
+    pat = rng.choice(["cot-uni", "uni-cot-uni", "pre-cotangent", "pre-angles", "random", "random", "move-fresh", "move-uniform"])
     m = lambda: rng.choice(MODES)
     if pat == "cot-uni":
         seq = [{"mode": m(), "cotan": True}, {"mode": m(), "cotan": False}]
@@ -152,14 +173,48 @@ def gen_sequence_case(rng, small=True):
         seq = [{"mode": m(), "cotan": False, "pre": "cotangent"}, {"mode": m(), "cotan": True}]
     elif pat == "pre-angles":
         seq = [{"mode": m(), "cotan": False, "pre": "angles"}, {"mode": m(), "cotan": True}, {"mode": m(), "cotan": False}]
+    elif pat == "move-fresh":      # vertices move BEFORE any cotangent / angle attribute exists: nothing can be stale
+        seq = [{"mode": m(), "cotan": False}, {"mode": m(), "cotan": True, "move": gen_move(rng, case)}]
+    elif pat == "move-uniform":    # vertices move after a cotangent run, then UNIFORM weights are asked: geometry-free
+        seq = [{"mode": m(), "cotan": True}, {"mode": m(), "cotan": False, "move": gen_move(rng, case)}]
     else:
-        seq = [{"mode": m(), "cotan": rng.random() < 0.5, "pre": rng.choice([None, None, "cotangent", "angles"])}
+        seq = [{"mode": m(), "cotan": rng.random() < 0.5,
+                "pre": rng.choice([None, None, "cotangent", "angles", "uv_garbage", "bad-mode"])}
                for _ in range(rng.randint(2, 4))]
     for st in seq:
         st["call"] = gen_call_form(rng)
     case["seq"] = seq
     case["pattern"] = pat
     return case
+
+
+def gen_move(rng, case):
+    """move one interior vertex inside its star (all incident triangles keep their orientation and a decent area)"""
+    V, F = case["verts"], case["faces"]
+    onb = set(G.border_cycle(F)[0])
+    inner = [v for v in range(len(V)) if v not in onb]
+    rng.shuffle(inner)
+
+    def cr(a, b, c):
+        u = [b[i] - a[i] for i in range(3)]
+        w = [c[i] - a[i] for i in range(3)]
+        return [u[1] * w[2] - u[2] * w[1], u[2] * w[0] - u[0] * w[2], u[0] * w[1] - u[1] * w[0]]
+    for v in inner:
+        star = [f for f in F if v in f]
+        nbv = sorted({x for f in star for x in f if x != v})
+        for _ in range(8):
+            j = rng.choice(nbv)
+            t = rng.choice([0.3, 0.4, 0.5])
+            new = [G.q64(V[v][i] * (1 - t) + V[j][i] * t) for i in range(3)]
+            ok = True
+            for f in star:
+                old_n = cr(*[V[x] for x in f])
+                new_n = cr(*[(new if x == v else V[x]) for x in f])
+                if sum(a * b for a, b in zip(old_n, new_n)) <= 0.2 * sum(a * a for a in old_n) or math.sqrt(sum(a * a for a in new_n)) < 0.05:
+                    ok = False
+            if ok and new != V[v]:
+                return [[v, new]]
+    return []
 
 
 def gen_cases(ctx):
@@ -513,9 +568,9 @@ def run(ctx):
     for ci, (c, o) in enumerate(zip(cases, obs)):
         if "seq" in c:
             steps = o.get("steps", [])
-            for k, st in enumerate(c["seq"]):
-                view = dict(c, mode=st["mode"], cotan=st["cotan"], call=st.get("call"))
+            for k, (view, stale) in enumerate(seq_views(c)):
                 ob = steps[k] if k < len(steps) else {"status": "error:no observation for this step"}
+                view["_stale_cache"] = stale
                 units.append((view, ob, ci, k))
         else:
             units.append((c, o, ci, None))
@@ -527,7 +582,7 @@ def run(ctx):
         fl = O.oracle(c, o)
         for key, msg in fl:
             if step is not None:
-                key = "seq/" + key
+                key = seq_key(c, key)
                 msg = "step %d of %s on one mesh object (%s, %s weights asked): %s" % (
                     step, json.dumps([[s_["mode"], "cotan" if s_["cotan"] else "uniform", s_.get("pre")] for s_ in cases[ci]["seq"]]),
                     c["mode"], "cotangent" if c["cotan"] else "uniform", msg)
@@ -540,6 +595,11 @@ def run(ctx):
         ctx.count("call: custom_boundary " + ("array" if c["mode"] == "custom" else "=None explicitly" if cf.get("cb") == "none" else "omitted"))
         ctx.count("call: boundary_mode %s, use_cotan %s, save_on_corners %s, uv_attr %s"
                   % (cf.get("mode", "kw"), cf.get("cotan", "kw"), cf.get("corners", "kw"), cf.get("uv_attr", "omit")))
+        ctx.count("call: flags as %s, face indices as %s, invoked by %s" % (cf.get("flags", "bool"), cf.get("idx", "int"), cf.get("invoke", "run")))
+        if c.get("geometry"):
+            ctx.count("geometry: " + c["geometry"].split(" ")[0])
+        if step is not None and cases[ci]["seq"][step].get("move"):
+            ctx.count("sequence: vertices moved before this step" + (" (a cotan/angles cache existed)" if c.get("_stale_cache") else ""))
         if step is not None:
             ctx.count("sequence step %d%s" % (step, (" after persistent " + cases[ci]["seq"][step]["pre"]) if cases[ci]["seq"][step].get("pre") else ""))
             if step > 0:
@@ -645,15 +705,50 @@ def run(ctx):
                     % (i, ci, step, c["mode"], c["cotan"], len(c["verts"]), len(c["faces"]), o.get("status")))
 
 
+def seq_views(case):
+    """per step: (the case as that step sees it - mode, weights, call form, vertices after the moves so far -,
+    whether a persistent cotan/angles attribute computed BEFORE a later vertex move is still on the mesh)"""
+    out = []
+    verts = [list(p) for p in case["verts"]]
+    cache = False          # a cotan / angles attribute exists on the mesh
+    stale = False          # ... and vertices moved after it was computed
+    for st in case["seq"]:
+        if st.get("move"):
+            verts = [list(p) for p in verts]
+            for v, xyz in st["move"]:
+                verts[int(v)] = [float(x) for x in xyz]
+            if cache:
+                stale = True
+        if st.get("pre") in ("cotangent", "angles"):
+            cache = True
+        view = dict(case, mode=st["mode"], cotan=st["cotan"], call=st.get("call"), verts=verts)
+        out.append((view, bool(stale and st["cotan"])))
+        if st["cotan"]:
+            cache = True
+    return out
+
+
+STALE_KEY = "seq/stale-cotan-cache-after-vertex-move"
+
+
+def seq_key(view, key):
+    """failure class of a sequence step.  Only the weighted-average / fold-free clauses of a COTANGENT step that runs
+    after the caller moved vertices while a persistent cotan/angles attribute already existed are filed under the
+    known finding; everything else keeps its own key."""
+    if view.get("_stale_cache") and key in ("harmonic", "foldfree"):
+        return STALE_KEY
+    return "seq/" + key
+
+
 def seq_failures(case, ob):
     """(step, key, message) for every failing step of a sequence case"""
     out = []
     steps = ob.get("steps", [])
-    for k, st in enumerate(case["seq"]):
-        view = dict(case, mode=st["mode"], cotan=st["cotan"], call=st.get("call"))
+    for k, (view, stale) in enumerate(seq_views(case)):
+        view["_stale_cache"] = stale
         o = steps[k] if k < len(steps) else {"status": "error:no observation for this step"}
         for key, msg in O.oracle(view, o):
-            out.append((k, "seq/" + key, msg))
+            out.append((k, seq_key(view, key), msg))
     return out
 
 
